@@ -213,6 +213,12 @@ func (in *Interp) registerTime(reg func(string, extFn)) {
 		return Tuple{TimeV{T: t, Set: true}, in.errOrNil(err)}
 	})
 	reg("time.LoadLocation", func(in *Interp, fr *frame, fn *ssa.Function, args []Value) Value {
+		if s := args[0].(Str); s.B != nil && in.path != nil && in.path.Loose {
+			if in.choice(2, "loose-loadlocation") == 0 {
+				return Tuple{in.locNative(time.UTC), Iface{}}
+			}
+			return Tuple{(*Value)(nil), in.mkError(Str{Opq: true})}
+		}
 		loc, err := time.LoadLocation(in.goString(args[0], "time.LoadLocation"))
 		if err != nil {
 			return Tuple{(*Value)(nil), in.errOrNil(err)}
